@@ -78,10 +78,22 @@ def parse(doc):
         return feedparser.parse(doc.encode("utf-8"), response_headers={"content-type": ("application/json" if doc.lstrip().startswith("{") else "application/xml") + "; charset=utf-8"})
 
 
-def check(af, fmt, cdata):
+def rand_style(rng, fmt):
+    """a serialisation style: child order, and for the namespaced formats the prefix the format's own namespace is bound to"""
+    st = {}
+    if rng.random() < 0.5:
+        st["perm"] = rng.randrange(1000)
+    if fmt in ("atom03", "atom10", "rss10") and rng.random() < 0.35:
+        st["prefix"] = rng.choice(["a", "atom", "x", "rss", "A"])
+    if fmt == "rss10" and rng.random() < 0.3:
+        st["dcprefix"] = rng.choice(["d", "dublin", "DC"])
+    return st or None
+
+
+def check(af, fmt, cdata, style=None):
     """findings for one abstract feed in one format"""
-    doc = feedgen.serialize(af, fmt, cdata=cdata, typed=True)
-    w = {"af": af, "fmt": fmt, "cdata": cdata, "doc": doc}
+    doc = feedgen.serialize(af, fmt, cdata=cdata, typed=True, style=style)
+    w = {"af": af, "fmt": fmt, "cdata": cdata, "style": style, "doc": doc}
     caps = feedgen.CAPS[fmt]
     try:
         r = parse(doc)
@@ -137,6 +149,11 @@ def check(af, fmt, cdata):
         s = e.get("summary")
         if not (plain_eq(s, a["summary"]) if (isjson or fmt.startswith("atom")) else html_eq(s, a["summary"])):
             bad("entry.summary", s, a["summary"])
+        if a.get("content") is not None:
+            c = e.get("content")
+            c0 = c[0] if isinstance(c, list) and c else (c if isinstance(c, dict) else {})   # (JSON Feed: a single dict -- that shape is the listed probe finding)
+            if not html_eq(c0.get("value"), a["content"]):
+                bad("entry.content", c0.get("value"), a["content"])
         if "author" in caps or "author_name" in caps:
             ad = e.get("author_detail") or {}
             if ad.get("name") != a["author_name"]:
@@ -185,12 +202,18 @@ def search(ctx, focus=None):
     dist = {}
     for _ in range(ctx.n(140, 3000)):
         af = abstract_feed(rng)
+        for e in af["entries"]:
+            if rng.random() < 0.4:
+                e["content"] = feedgen.rand_text(rng, True, (3, 10))
         for fmt in FORMATS:
             cdata = rng.random() < 0.35
+            style = rand_style(rng, fmt)
             n += 1
             dist[fmt] = dist.get(fmt, 0) + 1
-            distinct.add((json.dumps(af, sort_keys=True, default=str), fmt, cdata))
-            failures += check(af, fmt, cdata)
+            for k in (style or {}):
+                dist["style:" + k] = dist.get("style:" + k, 0) + 1
+            distinct.add((json.dumps(af, sort_keys=True, default=str), fmt, cdata, json.dumps(style, sort_keys=True)))
+            failures += check(af, fmt, cdata, style)
     failures += probe_json_content_shape()
     return {"evaluations": n, "distinct_nontrivial": len(distinct), "failures": failures, "distribution": dist,
             "rule": "abstract feeds (Unicode text incl. & < > quotes, non-BMP, padded / tabbed / multi-space text; absolute URLs with query strings; instants 1995-2035 x offsets incl. -00:01..-00:59, "
@@ -210,8 +233,8 @@ def correspondence(ctx):
     for _ in range(ctx.n(30, 300)):
         af = abstract_feed(rng, nentries=0)
         for fmt in FORMATS[:6]:
-            d = feedgen.serialize(af, fmt)
-            m = re.search(r"<(rss|feed|rdf:RDF)[^>]*>", d)
+            d = feedgen.serialize(af, fmt, style=rand_style(rng, fmt))
+            m = re.search(r"<((?:\w+:)?(?:rss|feed|RDF))[^>]*>", d)
             root = m.group(0)
             docs.append((root + "</" + m.group(1) + ">").encode("utf-8"))
     # the date elements of each format in feed and entry context (stage 1.5 of M-mixin: handlers recognised from their source)
@@ -242,7 +265,7 @@ def replay(w):
     if w.get("probe") == "json-content":
         fs = probe_json_content_shape()
         return (bool(fs), fs[0].what if fs else "entry.content is a list")
-    fs = check(w["af"], w["fmt"], w["cdata"])
+    fs = check(w["af"], w["fmt"], w["cdata"], w.get("style"))
     return (bool(fs), fs[0].what if fs else "all compared fields equal the abstract feed")
 
 
